@@ -9,10 +9,10 @@ CHECKS = {
     "C01": dict(
         text="Static: SYNC table folded, checked and pinned; the real Burst.__init__/as_bits/interleave/deinterleave/extract_data are analysed by abstract interpretation with the payload PDU as a box of N symbolic bits: "
              "for 8 payload kinds x 4 data SYNC patterns x symbolic colour code the bits handed to the PDU decoder are exactly the assembled payload atoms (through the real BPTC(196,96); rate 3/4 via the C10 inverse pair), "
-             "data type/colour code equal, re-serialisation identical; voice bursts around each voice SYNC and around a valid EMB word with 32 symbolic embedded bits re-serialise identically on every feasible path "
+             "data type/colour code equal, re-serialisation identical; voice bursts around each voice SYNC (parsed with the burst type given AND without it: the library must recognise the pattern itself and report a vocoder burst starting a superframe) and around a valid EMB word with 32 symbolic embedded bits re-serialise identically on every feasible path "
              "(affine path constraints prove that a valid EMB never collides with a SYNC pattern). Population-count thresholds on the centre bits become conditions that remember their operands; a difference on such a path is reported only with a concrete witness; SyncPatterns look-ups are resolved by interpreting _missing_ whenever it computes the member it returns.",
         technique="constant folding + table algebra; abstract interpretation over GF(2)-affine bit forms with affine path constraints",
-        note="trusted: C02/C03/C06/C10 verdicts (component codes and PDU codecs), bitarray models; voice bursts analysed with burst_type=Vocoder",
+        note="trusted: C02/C03/C06 verdicts (component codes and PDU codecs), bitarray models; the C10 table rules the rate 3/4 inverse pair rests on are re-evaluated inside this check; EMB voice bursts are parsed with burst_type=Vocoder (the library documents that they must be marked by the caller)",
         ref="DESIGN.md §3 C01"),
     "C02": dict(
         text="Static: the 196-entry interleave table is folded from the source and checked exhaustively against the ETSI formula; "
@@ -27,8 +27,8 @@ CHECKS = {
     "C03": dict(
         text="Static: every reader/writer pair of the layer-2/3 PDUs (13 classes, 48 discriminator branches) is analysed by abstract interpretation on a symbolic wire: per reader branch the object is "
              "built through the real constructor, the writer is run on it and each output position is compared with the wire bit it must reproduce (decode-then-encode), then all fields are replaced by "
-             "symbols to find field bits that are transmitted but not decoded; crashes (Type/Attribute/Overflow errors for all or some inputs) are reported; element enumerations are evaluated over their "
-             "whole bit width for totality. Decides layout symmetry for all field values at once; float quantisation of GPS Info is not decided.",
+             "symbols to find field bits that are transmitted but not decoded; crashes (Type/Attribute/Overflow errors for all or some inputs) are reported, with the ValueError exit of an enumeration that raises for undefined values as a reader path of its own (a handler that swallows it is seen); "
+             "the UDP/IPv4 compressed header is checked against its pinned layout (extended headers present iff SPID / DPID is 0); element enumerations are evaluated over their whole bit width for totality. Decides layout symmetry for all field values at once; float quantisation of GPS Info is not decided.",
         technique="abstract interpretation over GF(2)-affine bit forms with path enumeration on discriminators (trace partitioning); finite-domain evaluation of enum _missing_",
         note="trusted: CPython ast, bitarray/int operation models, enum fields assumed to hold defined members on the symmetric pass",
         ref="DESIGN.md §3 C03"),
@@ -50,7 +50,7 @@ CHECKS = {
     "C06": dict(
         text="Static, exhaustive over the finite tables: each generator matrix is folded from the source and checked with the checker's own GF(2) algebra "
              "(systematic, rank, weight of all 2^k codewords, H=[P^T|I], distinct columns, SEC-DED); generate/check/check_and_correct are analysed by abstract "
-             "interpretation of the real methods for all messages at once (generate(x)=x*G, acceptance condition equivalent to H*w=0, every single error repaired, "
+             "interpretation of the real methods for all messages at once (generate(x)=x*G, acceptance condition equivalent to H*w=0 with no codeword excluded by a special case, check(generate(x)) true on every path, every single error repaired, "
              "every double error of (16,11,4) reported).",
         technique="constant folding + GF(2) table algebra (exhaustive); abstract interpretation over GF(2)-affine forms",
         note="trusted: CPython ast, sa/algebra.py, numpy/bitarray operation models, pinned ETSI matrices in spec/fec_matrices.json",
@@ -80,9 +80,9 @@ CHECKS = {
     "C10": dict(
         text="Static: trellis tables folded, checked exhaustively and pinned; decode(encode(b)) == b decided for all 2^144 blocks by abstract interpretation in which "
              "data-keyed table look-ups become exact finite functions (truth tables over <=12 bit atoms) and data-dependent branches are analysed per assignment and merged; "
-             "bytes/bits agreement, interleave/deinterleave inverse permutations, per-symbol rejection structure.",
+             "bytes/bits agreement, interleave/deinterleave inverse permutations; rejection of impossible points decided by constant evaluation of the real decoder on 136 crafted streams (every state x every point no encoder emits from it, at the first, second and last symbol).",
         technique="constant folding + table algebra; abstract interpretation with a finite-function (truth-table) domain and per-statement case splitting",
-        note="trusted: CPython ast, bitarray/array models; rejection of impossible points is decided structurally (reset/assert placement), not for every corrupted stream",
+        note="trusted: CPython ast, bitarray/array models; rejection of impossible points is decided for the 136 crafted single-error streams (constant evaluation), not for every corrupted stream",
         ref="DESIGN.md §3 C10"),
     "C11": dict(
         text="Static: GF(2^8) tables folded and compared with the field computed by the checker; log_multiply evaluated exactly in the finite-function domain for all 65 536 operand pairs; "
@@ -94,14 +94,14 @@ CHECKS = {
     "C12": dict(
         text="Static, shape-seeded: the captured packets in the repository's own tests (hex constants read as data) plus sibling shapes (the captured object re-encoded under every other opcode its service accepts) give object shapes by constant evaluation; "
              "for each shape every scalar/byte field is replaced by symbols and the real as_bytes -> from_bytes -> as_bytes chain is analysed abstractly: every transmitted field bit decoded back, identical re-encoding, HDAP frame rules "
-             "(service|reliable byte, length field in the protocol's endianness, checksum fed with exactly opcode..payload, 0x03, len()), HRNP length field and checksum coverage, HSTRP option TLV chain; text-format rule for the GPS block; optional-field dereference. Two known findings.",
-        technique="abstract interpretation over GF(2)-affine bit forms on shapes obtained by constant evaluation of captured packets; syntax-tree format-width rule",
+             "(service|reliable byte, length field in the protocol's endianness, checksum fed with exactly opcode..payload, 0x03, len()), HRNP length field, checksum coverage and checksum field = the value computed over that input (the sum is an uninterpreted function wherever it lives: in verify_checksum or in a helper), carry handling of the HRNP sum by interval analysis, HSTRP option TLV chain; text-format rule for the GPS block; optional-field dereference. Two known findings.",
+        technique="abstract interpretation over GF(2)-affine bit forms on shapes obtained by constant evaluation of captured packets; interval analysis of the checksum accumulator; syntax-tree format-width rule",
         note="trusted: shapes are those of the captures (+siblings) listed in the evidence; checksums are uninterpreted functions of exactly the bytes fed to them (coverage checked, arithmetic not); GPS text block boxed",
         ref="DESIGN.md §3 C12"),
     "C13": dict(
         text="Static: a symbolic well-formed 72-octet frame (576 atoms under affine well-formedness constraints) is decoded by the real from_ipsc_bytes and by from_kaitai on the object produced by the generated Kaitai parser's own _read "
              "(parser source read as data, stream = cursor over the same atoms); all attributes must be equal bit forms, ids/colour/sequence the bits the frame encodes, as_ipsc_bytes of either object must reproduce all 576 forms, "
-             "and Burst.from_hytera_ipsc must build the same burst from either input on each of the slot-type paths. The frame Burst.from_hytera_ipsc leaves attached to the burst must still serialise to the received 72 octets.",
+             "ids must be unsigned 24-bit values, and Burst.from_hytera_ipsc must build the same burst from either input on each of the slot-type paths. The frame Burst.from_hytera_ipsc leaves attached to the burst must still serialise to the received 72 octets.",
         technique="abstract interpretation over GF(2)-affine bit forms of three sibling implementations on one symbolic input (cross-checking siblings); affine path constraints for well-formedness",
         note="trusted: model of the five KaitaiStream read primitives; Burst constructors stubbed in the from_hytera_ipsc rule (C01); well-formedness = fixed header, replicated colour nibble, zero pad octets, byte-palindromic codes (checked)",
         ref="DESIGN.md §3 C13"),
@@ -114,21 +114,21 @@ CHECKS = {
         note="partial claim: decides the uintvar / sintvar clauses for all 2^32 / 2^32-1 values; float (value % 1 * 128**p), latitude / longitude / info-time clauses involve binary floating point and are outside the decided part (DESIGN.md §3 C14)",
         ref="DESIGN.md §3 C14"),
     "C15": dict(
-        text="Static: (1) the LRRP token tables against the type dispatch of read_document and write_part (handled by both or rejected by both, single-octet ids, attribute ids defined); (2) loop-progress rules for the four reader loops; "
-             "(3) abstract interpretation of the real as_bytes -> from_bytes -> as_bytes chain on document shapes — the captured documents of the tests, their siblings with an inline constant table, 2-3 documents per buffer, and documents assembled through get_token "
-             "for every implemented token x attribute choice, with every content octet (opaque ids, coordinates, info-time, uint8, constant table; up to 200-octet values and 340-octet bodies) symbolic: token ids, values, attributes and bytes are restored for all content values at once, "
+        text="Static: (1) the LRRP token tables against the type dispatch of read_document and write_part (handled by both or rejected by both — a one-sided type must be rejected by the writer or round-trip; single-octet ids, attribute ids defined); (2) every LRRP document id is parsed with the element-token table of its kind (constant evaluation of get_configuration per id); "
+             "(3) abstract interpretation of the real as_bytes -> from_bytes -> as_bytes chain on document shapes — the captured documents of the tests, their siblings with an inline constant table of 0, 1 and 3 octets, 2-3 documents per buffer, and documents assembled through get_token "
+             "for every implemented token x attribute choice and for the same attribute-bearing token twice, with every content octet (opaque ids, coordinates, info-time, uint8, constant table; up to 200-octet values and 340-octet bodies) symbolic: token ids, values, attributes and bytes are restored for all content values at once, "
              "and the reader never branches on content; variable-length numbers are constant-evaluated at boundary values (127/128/16384, 63.5/64.5, negative fractions) only; (4) one process history per order (parse request, parse report, look every token up twice): get_token keeps returning the table entry and the class-level tables are unchanged.",
         technique="table / dispatch agreement over the syntax tree; abstract interpretation (GF(2)-affine bit forms) of writer -> reader -> writer on constant-evaluated and API-assembled shapes; per-path class-state comparison",
         note="trusted: token SEQUENCES are those of the captures and the API-assembled documents (not all sequences of 0..12 tokens); numeric token values at the listed boundary constants (all 2^32 values are C14, not claimed); a token's required attribute is always supplied",
         ref="DESIGN.md §3 C15"),
     "C16": dict(
         text="Static, shape-seeded (captures of the TMS/ARS tests): per shape all scalar/byte fields symbolic — the 7-bit TMS sequence number and ARS refresh time as bit atoms so that the one/two-octet optional header and reserved-folding enums are decided exactly for all 128 values — "
-             "and the real writer/reader chain analysed abstractly: fields restored, identical re-encoding, leading length == octets that follow, len() agrees; per-octet symbolic wire probe (decode-then-encode); non-ASCII identifier variants for the ARS len-value fields.",
+             "small enumerations that the owner class only serialises varied over their defined members, the TMS more-headers flag (derived by the serialiser) symbolic — and the real writer/reader chain analysed abstractly: fields restored, identical re-encoding, leading length == octets that follow, len() agrees; per-octet symbolic wire probe (decode-then-encode); non-ASCII identifier variants for the ARS len-value fields.",
         technique="abstract interpretation over GF(2)-affine / finite-function domains on shapes obtained by constant evaluation of captured packets",
         note="trusted: shapes = captures in okdmr/tests/dmrlib/motorola (+ non-ASCII variants); text content opaque; the reserved header bit that the writer normalises is kept at its captured value",
         ref="DESIGN.md §3 C16"),
     "C17": dict(
-        text="Static: every path of the real HSTRP and RRS datagram_received (18 + 65 paths) is enumerated by abstract interpretation with the decoder replaced by 'raises | None | HSTRP with symbolic type bits, S/N, payload kind' "
+        text="Static: every path of the real HSTRP and RRS datagram_received (18 + 65 paths) is enumerated by abstract interpretation with the decoder replaced by 'raises (one path per exception family: AssertionError, ValueError, KeyError, IndexError) | None | HSTRP with symbolic type bits, S/N, payload kind' "
              "and the transport as an effect-recording stub; hstrp_send_ack/heartbeat/rrs_confirm/deepcopy/as_bytes are interpreted for real, so each answer's bytes are bit forms over the request's atoms. Rules over (fixed type bits, effects, final state): "
              "never raises, acks never answered, exactly one ack with the request's S/N and no payload, heartbeat echo only while connected, connected flag, registry updates, one bounded-S/N confirm per registration. Interval rule: every assignment to the handler's own sequence number maps [0,0xFFFF] into itself (no 2-octet overflow after any history length).",
         technique="path enumeration by abstract interpretation with symbolic booleans (trace partitioning), effect sequences per path",
@@ -144,8 +144,8 @@ CHECKS = {
     "C19": dict(
         text="Static whole-library alias / mutation-effect analysis (sa/effects.py, 620+ functions, fixpoint over the resolved call graph, calling contexts for constant flag arguments): every in-place operation is attributed to the origins of its object — "
              "a parameter, or a process-lifetime object (class-/module-level mutable value, mutable default value, lru_cache result). Rules: no function mutates a process-lifetime object (inventory of ~70 objects and 18 mutable defaults; the CRC singletons are discharged by a "
-             "re-initialised-before-use proof over init/update/digest field sets, MBXML.DEBUG by a diagnostic-only-reads rule, memo stores only when the key determines the value); no codec function mutates a buffer parameter directly, through an alias or by passing it on "
-             "(6 documented in-place helpers listed with reasons, call sites still checked); read-path methods apply no toggling in-place operation to self; no codec function or import-time default expression reaches a clock / random source. "
+             "re-initialised-before-use proof over init/update/digest field sets, MBXML.DEBUG by a diagnostic-only-reads rule, memo stores only when the key determines the value — every input in the backward slice of the stored value is a variable the key preserves); no memoised function hands its mutable result to the caller of an entry point; no class-/module-level one-shot iterator; no codec function mutates a buffer parameter that can come from outside, directly, through an alias or by passing it on "
+             "(6 documented in-place helpers listed with reasons, call sites still checked); read-path methods apply no toggling in-place operation to self and keep no memo on the object; no codec function or import-time default expression reaches a clock / random source or the salted builtin hash(). "
              "A probe module with one seeded violation per rule is analysed on every run (positive controls) together with pure twins.",
         technique="flow-sensitive intraprocedural alias analysis with interprocedural mutation / return-alias summaries, field-sensitive shared-origin store, call-graph reachability; must-pass-through + field-set rule for the CRC register",
         note="decides the absence of every mechanism by which call history could matter (shared mutable state, argument aliasing, clock), not result equality over histories as such; unresolved receivers are over-approximated by method name (reported only when they reach shared state); "
@@ -153,9 +153,9 @@ CHECKS = {
         ref="DESIGN.md §3 C19"),
     "C20": dict(
         text="Static: ownership rules over the syntax tree (registry writers, read-only lookups, single writer of Repeater.id) plus abstract interpretation of the real storage methods on scenario sequences with symbolic patch values "
-             "(identity of repeated lookups, growth only on auto-create of unseen addresses, key == record.id coherence, patch touches exactly the named fields of exactly the matched record). Includes re-addressing a record through its own patch() followed by look-ups (no stale look-up memo).",
+             "(identity of repeated lookups, growth only on auto-create of unseen addresses — another port of a known ip is unseen —, key == record.id coherence, patch touches exactly the named fields of exactly the matched record, also when handed to the creating call or applied twice to one dynamic attribute). Includes re-addressing a record through its own patch() followed by look-ups (no stale look-up memo).",
         technique="syntax-tree ownership / who-may-write rules; abstract interpretation of scenario sequences",
-        note="trusted: uuid4 results distinct; sequences beyond the analysed scenarios are covered by the ownership rules only",
+        note="trusted: uuid4 results distinct, name-based uuid5 / uuid3 results a function of their arguments; sequences beyond the analysed scenarios are covered by the ownership rules only",
         ref="DESIGN.md §3 C20"),
 }
 
